@@ -59,6 +59,7 @@ void* sim_mremap(void*, size_t, size_t, int, ...);
 void  sim_mm_pause(void);
 time_t sim_time(time_t*);
 int   sim_swapcontext(ucontext_t*, const ucontext_t*);
+void  sim_makecontext(ucontext_t*, void (*)(), int, ...);
 uint64_t sim_machine_time_stamp(void);
 int   sim_spin_knob(int dflt);
 void  sim_probe(const char* name);
@@ -111,5 +112,6 @@ struct sim_steady_clock {
 #define _mm_pause sim_mm_pause
 #define steady_clock sim_steady_clock
 #define swapcontext sim_swapcontext
+#define makecontext sim_makecontext
 #endif
 #endif  // __cplusplus
